@@ -42,6 +42,7 @@ DstInputs(c, xs, xd, cats) ==
   \cup (IF "tick400" \in cats THEN {[k |-> "tick", a |-> [dt |-> 400], w |-> FALSE]} ELSE {})
   \cup (IF "cancel" \in cats THEN {[k |-> "cancel", a |-> [t |-> "cancel", right |-> TRUE], w |-> FALSE]} ELSE {})
   \cup (IF "cancelwrong" \in cats THEN {[k |-> "cancel", a |-> [t |-> "cancel", right |-> FALSE], w |-> FALSE]} ELSE {})
+  \cup (IF "reset" \in cats THEN {[k |-> "reset", a |-> [t |-> "reset"], w |-> FALSE]} ELSE {})
   \cup (IF "alien" \in cats THEN
           { Fsm(DAck(h, "EOF")), Fsm([h |-> h, t |-> "NAK", sos |-> 0, eos |-> 1, reqs |-> << <<0, 1>> >>]),
             Fsm([h |-> h, t |-> "FIN", cond |-> "NO_ERROR", deliv |-> "DATA_COMPLETE", fstat |-> "FILE_RETAINED", floc |-> NoFlocM]),
@@ -54,7 +55,7 @@ SReq(c, exists, known, mode, closure) ==
   [t |-> "put", mdOnly |-> c.mdOnly, mode |-> mode, closure |-> closure, exists |-> exists /\ ~c.mdOnly,
    data |-> IF c.mdOnly \/ ~exists THEN <<>> ELSE c.file,
    srcName |-> IF c.mdOnly THEN "none" ELSE "s/" \o c.srcName, srcBase |-> IF c.mdOnly THEN "none" ELSE c.srcName,
-   dstName |-> IF c.mdOnly THEN "none" ELSE "d/" \o c.dstName, dIdW |-> c.dIdW, dId |-> c.dId, known |-> known, msgs |-> c.msgs]
+   dstName |-> IF c.mdOnly THEN "none" ELSE "d/" \o c.dstName, dIdW |-> c.dIdW, dId |-> c.dId, known |-> known, msgs |-> c.msgs, xopts |-> c.xopts]
 Put(r) == [k |-> "put", a |-> r, w |-> FALSE]
 SrcInputs(c, xs, xd, cats) ==
   LET mode == IF xs.state = "BUSY" THEN xs.hdr.mode ELSE c.mode
@@ -74,6 +75,7 @@ SrcInputs(c, xs, xd, cats) ==
   \cup (IF "fin" \in cats THEN {Fsm([h |-> h, t |-> "FIN", cond |-> "NO_ERROR", deliv |-> "DATA_COMPLETE", fstat |-> "FILE_RETAINED", floc |-> NoFlocM])} ELSE {})
   \cup (IF "cancel" \in cats THEN {[k |-> "cancel", a |-> [t |-> "cancel", right |-> TRUE], w |-> FALSE]} ELSE {})
   \cup (IF "cancelwrong" \in cats THEN {[k |-> "cancel", a |-> [t |-> "cancel", right |-> FALSE], w |-> FALSE]} ELSE {})
+  \cup (IF "reset" \in cats THEN {[k |-> "reset", a |-> [t |-> "reset"], w |-> FALSE]} ELSE {})
   \cup (IF "alien" \in cats THEN
           { Fsm([h |-> h, t |-> "ACK", acked |-> "FIN", cond |-> "NO_ERROR", tstat |-> "ACTIVE"]), Fsm([h |-> h, t |-> "KA", progress |-> 1]),
             Fsm([h |-> h, t |-> "PROMPT", resp |-> 0]), Fsm(DFd(c, h, 0, 1)), Fsm(DEof(c, h, "NO_ERROR", n, TRUE)),
